@@ -107,6 +107,8 @@ type c10Scn struct {
 	// halfclose scenarios (TCP): connection 0 carries the blockers and stays open; every other connection sends its
 	// requests StaggerMs later, then shuts down its sending side (FIN) and keeps reading until the server closes
 	HalfClose bool `json:"half_close,omitempty"`
+	// TCP: pause after every write, so that the server's read really ends where the write ended
+	ChunkPauseMs int `json:"chunk_pause_ms,omitempty"`
 	// runs alone in its child, before the concurrent scenarios: its requests must find idle workers and an empty queue
 	Exclusive bool     `json:"exclusive,omitempty"`
 	StaggerMs int      `json:"stagger_ms,omitempty"`
@@ -1001,6 +1003,9 @@ func c10GenPlain(rng *rand.Rand, cfg c10Cfg, udp bool, tier string) c10Scn {
 		c10Encode(&q)
 		s.Reqs = append(s.Reqs, q)
 	}
+	if !udp && rng.Intn(4) == 0 {
+		c10SplitHeaders(&s)
+	}
 	return s
 }
 
@@ -1185,6 +1190,23 @@ func c10GenSched(rng *rand.Rand, cfg c10Cfg, udp bool, tier string) c10Scn {
 	return s
 }
 
+// TCP writes that end 1, 2, 3 (cyclically) bytes into the length header of the next request of connection 0, with a
+// pause after each: the server's read returns a complete request followed by a partial header
+func c10SplitHeaders(s *c10Scn) {
+	s.Conns, s.Chunks, s.ChunkPauseMs = 1, nil, 30
+	for i := range s.Reqs {
+		n := len(s.Reqs[i].Pkg)
+		k := i%3 + 1
+		if i == 0 {
+			s.Chunks = append(s.Chunks, n+k)
+		} else if i == len(s.Reqs)-1 {
+			s.Chunks = append(s.Chunks, 1<<20)
+		} else {
+			s.Chunks = append(s.Chunks, n-((i-1)%3+1)+k)
+		}
+	}
+}
+
 // fixed scenarios run first on every run: the witnesses of the refuted statements and of the repaired defects
 func c10Corpus() []c10Scn {
 	mk := func(cfg c10Cfg, udp bool, reqs ...c10Req) c10Scn {
@@ -1212,6 +1234,9 @@ func c10Corpus() []c10Scn {
 		}
 		id++
 		reqs = append(reqs, c10Req{Ver: ver, PType: c10OneWay, ID: id, Func: "notify", Kind: c10KTarsErr, Code: 4242, Msg: boom})
+		for k, fn := range c10ShapeNames { // one-way calls that succeed: nothing may come back although the dispatcher fills a response
+			reqs = append(reqs, c10Req{Ver: ver, PType: c10OneWay, ID: id + 100 + int32(k), Func: fn, Kind: c10KOk, Code: 7, Msg: boom})
+		}
 		shapes = append(shapes, mk(c10Cfg{0, 0}, ver == c10VerTup, reqs...))
 	}
 	// the two timeout clauses over every version x way x transport, on every run (the random scenarios leave cells empty):
@@ -1231,6 +1256,16 @@ func c10Corpus() []c10Scn {
 		q := mk(c10Cfg{1, 0}, udp, qs...)
 		q.Kind = "queue"
 		shapes = append(shapes, q, mk(c10Cfg{0, 250}, udp, hs...))
+	}
+	// pipelined requests cut inside the next request's length header (TCP), without and with a worker pool
+	for _, cfg := range []c10Cfg{{0, 0}, {1, 0}} {
+		var rs []c10Req
+		for k := int32(0); k < 5; k++ {
+			rs = append(rs, c10Req{Ver: []int16{c10VerTars, c10VerJSON, c10VerTup}[k%3], ID: 3000 + k, Func: c10ShapeNames[k%5], Kind: k % 3, Code: 11, Msg: boom})
+		}
+		sp := mk(cfg, false, rs...)
+		c10SplitHeaders(&sp)
+		shapes = append(shapes, sp)
 	}
 	return append(shapes, []c10Scn{
 		// Props/C10.v C10_error_code_on_wire_refuted (tup_error_witness): TUP, id 7, *tars.Error{78, "boom"}; and the same
